@@ -156,6 +156,9 @@ class C04(core.Check):
         # record 2: the pinned history of item 41 (Krylov solver with method PM6: refused, formerly a wrong density)
         ksa = {"eps": 1e-8, "conv": [3, {"T_el": 300.0, "max_rank": 3, "err_threshold": 0.0}], "sp2": [False], "uhf": False}
         recs[2] = {"batch": ["h2co"], "method": "PM6", "rotate": 5, "seed": 77, "i": 2, "ops": [{"op": "SOLVE", "cfg": dict(pulay, eps=1e-8), "start": "cold", "cap": 1000}, {"op": "SOLVE", "cfg": ksa, "start": "cold", "cap": 1000}, {"op": "SOLVE", "cfg": dict(pulay, eps=1e-8, conv=[1]), "start": "carried", "cap": 1000}]}
+        # record 3: the pinned session of known finding C04-pulay-batch-unstable-stationary-point (item 46): in the batch
+        # [H2S, C2H4] at this orientation the cold-start Pulay solve (the reference path) lands H2S on the unstable stationary point
+        recs[3] = {"batch": ["h2s", "c2h4"], "method": "AM1", "rotate": 1019240000, "seed": 123306448824, "i": 3, "ops": [{"op": "SOLVE", "cfg": {"eps": 1e-6, "conv": [1], "sp2": [False], "uhf": False}, "start": "cold", "cap": 1000}, {"op": "SOLVE", "cfg": {"eps": 1e-6, "conv": [2], "sp2": [False], "uhf": False}, "start": "cold", "cap": 1000}]}
         return recs
 
     def shrink_candidates(self, rec):
